@@ -21,7 +21,9 @@ RULE = ('systematic schedule enumeration: for each chosen element class X (quick
         'does its first use of X (construct with attributes, add the children of a shortest valid word, validate, serialise) '
         'and is pre-empted once, at every executed library line k in turn (all k; a stride keeps it <= 600 points per class and family '
         'in quick), while thread B runs its own first use of X (family same) or of a class sharing attributes with X (family '
-        'shared), or an incomplete / differently valued document, or after A made refused calls (misspelt attribute, wrong child) to completion in the gap; each k in a child forked from a pristine parent. Both threads\' results '
+        'shared), or an incomplete / differently valued document, or after A made refused calls (misspelt attribute, wrong '
+        'child), or while A probes its integer-typed attributes and values with equal values of another Python kind (2.0, '
+        'Fraction(2), Decimal(2), True: the answers are part of A\'s result), to completion in the gap; each k in a child forked from a pristine parent. Both threads\' results '
         '(serialisation text or exception class) are compared with the single-threaded result from a pristine child. Plus a '
         'free-running stress (8 threads, switch interval 1e-6). non-trivial = a schedule in which B actually ran inside A\'s '
         'first use; distinct = distinct (class, family, k)')
@@ -32,6 +34,10 @@ TIMEOUT = {'quick': 900, 'thorough': 5400}
 QUICK_CLASSES = ['XMLWords', 'XMLNote', 'XMLPitch', 'XMLMeasure', 'XMLPart', 'XMLScorePartwise', 'XMLDirective', 'XMLBarline',
                  'XMLAccidental', 'XMLFermata', 'XMLLyric', 'XMLMetronome', 'XMLTimeModification', 'XMLCreditWords',
                  'XMLArticulations', 'XMLSound']
+
+
+INTEGER_CLASSES = ['XMLBeam', 'XMLSlur', 'XMLClef', 'XMLAccord', 'XMLMidiDevice', 'XMLRepeat', 'XMLCredit', 'XMLStaffTuning',
+                   'XMLSync', 'XMLBeatRepeat']
 
 
 def plan(tier, seed):
@@ -46,6 +52,8 @@ def plan(tier, seed):
                 seen[t] = convert_to_xml_class_name(n)
         names = sorted(set(seen.values()) | set(QUICK_CLASSES))
     out = [{'cls': n, 'cost': 10} for n in names]
+    # classes with integer-typed attributes of each integer type of the schema: only the family that needs them
+    out += [{'cls': n, 'cost': 3, 'only': 'equal-values-of-another-kind-A'} for n in INTEGER_CLASSES if n not in names]
     out.append({'cls': '*stress*', 'cost': 10})
     return out
 
@@ -64,9 +72,14 @@ def scenario_spec(cn, variant='first'):
                 continue
             forms = [f for f in ref.valid_forms(at) if ref.valid(at, f) and f == f.strip() and f and len(f) < 12]
             is_union = ref.primitive(at) == 'union'
+            if variant == 'integers':
+                # the attributes typed as integers (plus the required ones)
+                if forms and (req or ref.numeric_kinds(at) == {'integer'}):
+                    spec['attrs'].append((an, forms[0], req or len(spec['attrs']) < 6))
+                continue
             if forms and (req or is_union or len([a for a in spec['attrs'] if not a[2]]) < 3):
                 spec['attrs'].append((an, forms[0] if variant == 'first' else forms[-1], req or is_union))
-        spec['attrs'] = [(a, f) for a, f, keep in spec['attrs']][:8]
+        spec['attrs'] = [(a, f) for a, f, keep in spec['attrs'] if keep or variant != 'integers'][:8]
         if t in ref.DFAS:
             for s in ref.shortest_word(t):
                 ct = ref.eltype(s)
@@ -109,9 +122,38 @@ def _cands(lex):
     return out
 
 
+def _other_kinds(lex):
+    """Python values of ANOTHER kind that compare equal to the value the scenario is going to use (2 -> 2.0, Fraction(2), True
+    for 1; 0.5 -> Fraction(1, 2), Decimal): whatever the library answers to them alone, it must answer in every schedule"""
+    import re
+    import fractions
+    import decimal
+    v = lex.strip()
+    out = []
+    if re.fullmatch(r'[+-]?[0-9]+', v):
+        i = int(v)
+        out += [float(i), fractions.Fraction(i), decimal.Decimal(i)]
+        if i in (0, 1):
+            out.append(bool(i))
+    elif ref.DEC.fullmatch(v):
+        f = float(v)
+        out += [fractions.Fraction(f), decimal.Decimal(f)]
+        if f == int(f):
+            out.append(int(f))
+    return out
+
+
 def do_scenario(spec):
-    """the work of one thread: returns ('ok', text) or ('exc', class, message prefix)"""
+    """the work of one thread: returns ('ok', text, outcomes of the refused / probing calls) or ('exc', class, message prefix)"""
     import musicxml.xmlelement.xmlelement as xe
+    events = []
+
+    def probe(f):
+        try:
+            f()
+            events.append('ok')
+        except Exception as e:  # noqa: BLE001
+            events.append('%s:%s' % (type(e).__name__, str(e)[:60]))
     try:
         cls = getattr(xe, spec['cls'])
         obj = None
@@ -138,12 +180,15 @@ def do_scenario(spec):
                       (lambda: setattr(obj, 'value_', ('not', 'a', 'value'))) if spec['values'] else (lambda: None),
                       lambda: obj.add_child(getattr(xe, 'XMLScorePartwise')(xsd_check=False)),
                       lambda: setattr(obj, 'xml_no_such_child', None)):
-                try:
-                    f()
-                except Exception:  # noqa: BLE001
-                    pass
+                probe(f)
+        if spec.get('probe_kinds') and spec['values']:
+            for alt in _other_kinds(spec['values'][0]):
+                probe(lambda: cls(alt))
         for an, lex in spec['attrs']:
             last = None
+            if spec.get('probe_kinds'):
+                for alt in _other_kinds(lex):
+                    probe(lambda: setattr(obj, an.replace('-', '_'), alt))
             for pv in _cands(lex):
                 try:
                     setattr(obj, an.replace('-', '_'), pv)
@@ -168,7 +213,7 @@ def do_scenario(spec):
             if ch is None:
                 ch = ccls(xsd_check=False)
             obj.add_child(ch)
-        return ('ok', obj.to_string())
+        return ('ok', obj.to_string(), events)
     except BaseException as e:  # noqa: BLE001
         return ('exc', type(e).__name__, str(e)[:80])
 
@@ -290,6 +335,32 @@ def run_stress(tier, seed):
             'samples': [{'stress_threads': 8, 'rounds': rounds}], 'counters': {'stress_rounds': rounds}}
 
 
+def families_of(cn):
+    """[(family, spec of thread A, spec of thread B)] for one class"""
+    specA = scenario_spec(cn)
+    out = [('same', specA, specA)]
+    p = partner_of(cn)
+    if p:
+        out.append(('shared', specA, scenario_spec(p)))
+    # B builds an INCOMPLETE document of the same class (required attributes withheld, or no children): alone it is refused,
+    # and it must be refused in every schedule as well
+    inc = incomplete_spec(specA)
+    if inc is not None:
+        out.append(('incomplete-B', specA, inc))
+    # A makes a few refused calls before its normal work (error paths touch the shared tables too); B works normally
+    out.append(('refused-calls-A', dict(specA, misuse=True), inc if inc is not None else specA))
+    # B uses other valid values than A (for union-typed attributes: the other member type, e.g. a number instead of a token)
+    alt = scenario_spec(cn, 'last')
+    if alt['attrs'] != specA['attrs'] or alt['values'] != specA['values']:
+        out.append(('other-values-B', specA, alt))
+    # A probes, before each of its assignments, Python values of another kind that compare equal to the value B assigns
+    # (2.0, Fraction(2), Decimal(2), True ...): the answers (accepted / refused with which message) are part of A's result
+    specI = scenario_spec(cn, 'integers')
+    if any(_other_kinds(lex) for _, lex in specI['attrs']) or (specI['values'] and _other_kinds(specI['values'][0])):
+        out.append(('equal-values-of-another-kind-A', dict(specI, probe_kinds=True), specI))
+    return out
+
+
 def run_shard(shard, tier, seed):
     from .. import lib   # noqa: F401  (imports the library; nothing is instantiated here)
     cn = shard['cls']
@@ -299,29 +370,9 @@ def run_shard(shard, tier, seed):
     c = collections.Counter()
     evals = 0
     nontriv = 0
-    specA = scenario_spec(cn)
-    families = [('same', specA)]
-    p = partner_of(cn)
-    if p:
-        families.append(('shared', scenario_spec(p)))
-    # B builds an INCOMPLETE document of the same class (required attributes withheld, or no children): alone it is refused,
-    # and it must be refused in every schedule as well
-    inc = incomplete_spec(specA)
-    if inc is not None:
-        families.append(('incomplete-B', inc))
-    # A makes a few refused calls before its normal work (error paths touch the shared tables too); B works normally
-    families.append(('refused-calls-A', None))
-    # B uses other valid values than A (for union-typed attributes: the other member type, e.g. a number instead of a token)
-    alt = scenario_spec(cn, 'last')
-    if alt['attrs'] != specA['attrs'] or alt['values'] != specA['values']:
-        families.append(('other-values-B', alt))
     windows = collections.Counter()
-    specA0 = specA
-    for fam, specB in families:
-        specA = specA0
-        if fam == 'refused-calls-A':
-            specA = dict(specA0, misuse=True)
-            specB = inc if inc is not None else specA0
+    fams = [f for f in families_of(cn) if shard.get('only') in (None, f[0])]
+    for fam, specA, specB in fams:
         refA = in_child(lambda: list(do_scenario(specA)))
         refB = in_child(lambda: list(do_scenario(specB)))
         base = in_child(lambda: preempt_run(specA, specB, None))
@@ -352,7 +403,7 @@ def run_shard(shard, tier, seed):
         c['preemption_points:' + fam] = len(ks)
         c['stride:' + fam] = stride
     return {'evaluations': evals, 'distinct_nontrivial': nontriv, 'violations': viol,
-            'samples': [{'class': cn, 'families': [f for f, _ in families], 'spec': {k: v for k, v in specA.items() if k != 'values'}}],
+            'samples': [{'class': cn, 'families': [f[0] for f in fams], 'spec': {k: v for k, v in fams[0][1].items() if k != 'values'}}] if fams else [],
             'counters': dict(c, divergent_points=sum(windows.values())), 'exhaustive': True}
 
 
@@ -374,8 +425,7 @@ def replay_case(rp):
     c = rp['case']
     if 'k' not in c:
         return {'violated': False, 'note': 'stress rounds are not replayable deterministically'}
-    specA = scenario_spec(c['cls'])
-    specB = scenario_spec(c['partner'])
+    _, specA, specB = next(f for f in families_of(c['cls']) if f[0] == c.get('family', 'same'))
     refA = in_child(lambda: list(do_scenario(specA)))
     refB = in_child(lambda: list(do_scenario(specB)))
     out = in_child(lambda: preempt_run(specA, specB, c['k']))
